@@ -2,7 +2,7 @@
    (model/C13_Model.v: expand / instance / ordered / schedule / import_row) was written from them.  The text
    regenerated from the source on every run must equal these constants (link/C13_Link.v); the behaviour is
    tied by the correspondence.  A line break of the source is written " | ". *)
-From Coq Require Import List String.
+From Coq Require Import List String Bool.
 Import ListNotations.
 
 Definition expected_sched_params : string := "self, cur, line, flight_id, origin, destination, effective_from, effective_to, days, departure_time, arrival_time, arrival_day_offset"%string.
@@ -32,3 +32,33 @@ Definition expected_importer_state : list string := ["_airport_cache"%string; "_
 Definition expected_distance_check_names : list string := ["GEOD"%string; "Warning"%string].
 (* ~ [od_pair] *)
 Definition expected_od_pair_expr : string := "min(origin.airport.iata_code, destination.airport.iata_code) + max(origin.airport.iata_code, destination.airport.iata_code)"%string.
+
+(* ---- which airports are known (utils/airports.py:AirportsData) ----
+   An airport row is (iata_code, type).  A code is KNOWN iff some row of the main file or of the patch file
+   carries it — every row with a non-empty code counts, whatever its `type` (the patch file exists to keep
+   closed and otherwise historical airports known). *)
+Definition airport_row := (string * string)%type.
+Definition row_kept (r : airport_row) : bool := negb (String.eqb (fst r) "").
+Definition known_airport (main patch : list airport_row) (code : string) : bool :=
+  existsb (fun r => row_kept r && String.eqb (fst r) code) (main ++ patch).
+
+(* reading of the row filter found in _read_file's comprehension (None: a filter the model has no reading for) *)
+Definition row_filter_of_src (flt : string) : option (airport_row -> bool) :=
+  if String.eqb flt "row['iata_code']" then Some row_kept else None.
+Definition known_of_src (key flt : string) (main patch : list airport_row) (code : string) : option bool :=
+  if negb (String.eqb key "row['iata_code']") then None
+  else match row_filter_of_src flt with
+       | None => None
+       | Some f => Some (existsb (fun r => f r && String.eqb (fst r) code) (main ++ patch))
+       end.
+
+Definition expected_airport_sources : list string :=
+  ["self._airports = self._read_file(_data_file('airports'))";
+   "self._airports.update(self._read_file(config.data_file_location('airports/airports-patch.csv')))"]%string.
+Definition expected_airport_lookup : string := "return self._airports.get(code)".
+
+Lemma closed_airport_is_known :
+  known_airport [("LHR", "large_airport")]%string [("TXL", "closed"); ("", "heliport")]%string "TXL" = true
+  /\ known_airport [("LHR", "large_airport")]%string [("TXL", "closed"); ("", "heliport")]%string "" = false
+  /\ known_airport [("LHR", "large_airport")]%string [("TXL", "closed")]%string "QQQ" = false.
+Proof. repeat split; reflexivity. Qed.
